@@ -1,4 +1,5 @@
 import GoframeModel.Step
+import GoframeModel.Lemmas.Rect
 /-
   C01 — frames stay rectangular and row-aligned through every operation history.
   One-step preservation for every public operation, lifted to every reachable pool by induction over
@@ -29,7 +30,10 @@ def OpOk (p : Pool) : Op → Prop
 /-- ONE STEP: every successful public operation maps good pools to good pools -/
 theorem step_good (ω : Oracle) (p p' : Pool) (op : Op) (hp : Good p) (hok : OpOk p op)
     (h : step ω p op = .ok p') : Good p' := by
-  sorry
+  refine RectLemmas.step_G ω p p' op hp ?_ h
+  intro t c hop f hf
+  subst hop
+  exact hok f hf
 
 /-- pools reachable by any history of public operations (failed operations leave the pool as it is) -/
 inductive Reach (ω : Oracle) (p₀ : Pool) : Pool → Prop
@@ -40,7 +44,14 @@ inductive Reach (ω : Oracle) (p₀ : Pool) : Pool → Prop
 live frame is rectangular, each column stored under its own name, and `Nrows` reports the common length -/
 theorem reach_good (ω : Oracle) (p₀ p : Pool) (h₀ : Good p₀) (h : Reach ω p₀ p) :
     Good p ∧ ∀ f ∈ p, ∀ kc ∈ f, kc.2.data.length = f.nrows ∧ kc.2.name = kc.1 := by
-  sorry
+  have hg : Good p := by
+    induction h with
+    | init => exact h₀
+    | step _ hok hs ih => exact step_good ω _ _ _ ih hok hs
+  refine ⟨hg, ?_⟩
+  intro f hf kc hkc
+  obtain ⟨n, hn⟩ := (hg f hf).1
+  exact ⟨nrows_any_column hn kc hkc, (hn kc hkc).2⟩
 
 /-- the pinned AppendRow created a new column with a single cell (finding D1): a ragged frame -/
 theorem appendRow_pinned_ragged :
